@@ -336,7 +336,7 @@ func universeOrder() *Universe {
 			V("c", npol("ns1", "ghost", fp(1), "all()", "ingress", "egress")),
 		}},
 		Key{ID: "p4", Kind: "policy", Key: npKey("ns0", "bbb"), Variants: []Variant{
-			V("a", npol("ns0", "default", nil, "all()", "egress")),
+			V("a", npol("ns0", "default", fp(10), "all()", "egress")),
 			V("b", npol("ns0", "tier1", fp(10), "role == 'web' || role == 'host'", "ingress", "egress")),
 			Bad("bad", &model.Policy{Namespace: "ns0", Tier: "default", Selector: "all()", Types: []string{"egress"}, OutboundRules: []model.Rule{badAllowRule()}}),
 		}},
